@@ -617,3 +617,51 @@ Proof.
         rewrite firstn_app, Nat.sub_diag, firstn_all, firstn_O, app_nil_r. reflexivity. }
     apply sr_reads_spec. exists p. cbn [br_rest br_block app]. split; [exact Hrep|reflexivity].
 Qed.
+
+(* ------------------------------------------------------------------ *)
+(* recorded size                                                        *)
+
+Lemma enc_blocks_length_full bs F : Forall (fun b => length b = bs) F ->
+  length (enc_blocks F) = ((bs + 4) * length F)%nat.
+Proof.
+  induction 1 as [|b F Hb HF IH]; [cbn; lia|].
+  unfold enc_blocks in *. cbn [map concat length]. rewrite app_length, enc_block_length, IH. lia.
+Qed.
+
+Lemma concat_length_full bs (F : list bytes) : Forall (fun b => length b = bs) F ->
+  length (concat F) = (bs * length F)%nat.
+Proof.
+  induction 1 as [|b F Hb HF IH]; [cbn; lia|]. cbn [concat length]. rewrite app_length, IH. lia.
+Qed.
+
+Theorem recorded_size_proved bs p : (0 < bs)%nat ->
+  nlen (file_body bs p) = v2_payload_size (N.of_nat bs) (nlen p).
+Proof.
+  intros Hbs. destruct (split_blocks bs p Hbs) as (F & r & HF & Hr & Hc).
+  unfold file_body, v2_payload_size. rewrite nlen_app. unfold nlen at 2.
+  rewrite file_tail_length, tail_size_eq, checksum_size_eq.
+  rewrite <- Hc at 1. rewrite blocks_spec by assumption. rewrite enc_blocks_app.
+  unfold nlen. rewrite app_length, (enc_blocks_length_full bs F HF).
+  rewrite <- Hc, app_length, (concat_length_full bs F HF).
+  unfold bytes in *.
+  replace ((bs + 4) * length F)%nat with (bs * length F + 4 * length F)%nat by lia.
+  set (m := (bs * length F)%nat) in *.
+  destruct r as [|x r].
+  - cbn [last_block enc_blocks map concat length].
+    replace ((N.of_nat (m + 0) + N.of_nat bs - 1) / N.of_nat bs) with (N.of_nat (length F)).
+    + lia.
+    + apply N.div_unique with (N.of_nat bs - 1); unfold m; nia.
+  - cbn [last_block]. rewrite enc_blocks_one, app_length, crc_bytes_length.
+    replace ((N.of_nat (m + length (x :: r)) + N.of_nat bs - 1) / N.of_nat bs)
+      with (N.of_nat (length F) + 1).
+    + lia.
+    + apply N.div_unique with (N.of_nat (length (x :: r)) - 1); cbn [length] in *; unfold m; nia.
+Qed.
+
+(* ------------------------------------------------------------------ *)
+(* shrunk snapshots                                                     *)
+
+Theorem shrunk_body_reads_proved bs : (0 < bs)%nat ->
+  fst (sr_reads bs (v2_reader (file_body bs empty_lru_session)) [16%nat; 1%nat]) =
+  [OData empty_lru_session; OEof []].
+Proof. intros Hbs. rewrite read_write_roundtrip_proved by exact Hbs. reflexivity. Qed.
